@@ -24,7 +24,8 @@ CHECKS['C02'] = dict(
           "model holds the outputs of transform, get_mahalanobis_matrix, pair_distance, pair_score, score_pairs, "
           "get_metric (plain, squared) and of the same query as list / Fortran / non-contiguous / integer / "
           "single-pair / index+preprocessor input; TLC recomputes every view from the logged components_ in exact "
-          "dyadic arithmetic (ObsMetric!ViewsFails)."),
+          "dyadic arithmetic (ObsMetric!ViewsFails)."
+          " Additionally the repository's OWN test suite is run under a pytest tracing plugin (harness/verif_trace_plugin.py, nothing in /repo modified) and every outermost pair_distance / pair_score / score_pairs / decision_function / transform / get_mahalanobis_matrix call recorded from it is validated by TLC against the same definitions (TR_MetricLearn, clauses C02.suite_call_*)."),
     note=("Tolerance 2^-30 relative + 2^-45 of the operand scale (code rounds at 2^-53); exhaustive only on the small "
           "grid, sampling beyond; trusted base as C01."),
     technique="TLA+ spec (Mahalanobis/ObsMetric) + TLC exhaustive model + TLC trace validation of recorded behaviours",
@@ -37,7 +38,8 @@ CHECKS['C03'] = dict(
           "code on generated well-formed data, then the same object is refitted on data of another dimensionality; TLC "
           "evaluates the fit postcondition ObsFit!FitFails on each recorded Fit event (returns self, real finite 2-D "
           "float components_, expected shape incl. the SCML low-rank rule, n_features_in_ of the last fit, transform "
-          "shape, M symmetric PSD in exact arithmetic)."),
+          "shape, M symmetric PSD in exact arithmetic)."
+          " Additionally the repository's OWN test suite is run under a pytest tracing plugin (harness/verif_trace_plugin.py, nothing in /repo modified) and every fit (object history events with the projected state before/after) recorded from it is validated by TLC against the per-object machine ObjLife.tla (TR_ObjLife: fitted, n_features_in_ = features of the data handed to fit, returns self)."),
     note=("The configuration space is exhausted for n_features 2..4 (quick) / 2..8 (thorough); the training sets are "
           "sampled (1 resp. 3 per configuration). SDML's balance_param is chosen by a norm bound so that the "
           "graphical-lasso input is positive definite, as the property's quantifier requires."),
@@ -51,7 +53,8 @@ CHECKS['C04'] = dict(
           "executed on real ITML/MMC/SDML objects (spec->code) next to random histories, and SCML / LSML are queried on "
           "tuples with manufactured exact ties, formed and through index+preprocessor; every recorded event is "
           "validated by TLC with ObsClassify on the exact bits of the doubles (predict vs distance <= threshold_, "
-          "decision = -distance, AUC by exact pair counting, swap negation)."),
+          "decision = -distance, AUC by exact pair counting, swap negation)."
+          " Additionally the repository's OWN test suite is run under a pytest tracing plugin (harness/verif_trace_plugin.py, nothing in /repo modified) and every predict / decision_function call on pairs, triplets and quadruplets and every set_threshold recorded from it is validated by TLC against the decision rules (TR_MetricLearn C04.suite_call_*) and ObjLife!SetThreshold (TR_ObjLife)."),
     note=("Exhaustive for distances 0..3, thresholds -1..3, 4 operations; sampling beyond. The distances compared are the "
           "ones pair_distance reports (their agreement with components_ is C01/C02)."),
     technique="TLA+ threshold life-cycle model + TLC exhaustive/simulated behaviours replayed into code + TLC trace validation",
@@ -64,7 +67,8 @@ CHECKS['C16'] = dict(
           "state is realised on fitted ITML/MMC/SDML models with pairs whose learned distances tie bit-exactly, "
           "calibrate_threshold is run, and TLC decides Calibrate!OptimalCounts for the stored threshold_ by exact "
           "fraction comparison; random validation sets on arbitrary learned metrics, fit(calibration_params=...) and the "
-          "invalid-parameter table (ValueError before any fitting work) are validated the same way."),
+          "invalid-parameter table (ValueError before any fitting work) are validated the same way."
+          " Additionally the repository's OWN test suite is run under a pytest tracing plugin (harness/verif_trace_plugin.py, nothing in /repo modified) and every calibrate_threshold call (direct or inside fit(calibration_params=...)) with the validation distances read back recorded from it is validated by TLC against Calibrate.tla (optimality of the stored threshold)."),
     note=("beta and min_rate are dyadic so the float comparisons of the code cannot disagree with the exact ones; "
           "thresholds of +-infinity are legal stored values (the statement constrains what predicting with them attains)."),
     technique="TLA+ definition of optimal cut-off, TLC-enumerated tie-rich cases replayed into code, TLC trace validation",
@@ -76,7 +80,8 @@ CHECKS['C07'] = dict(
           "to the real Constraints helper with parameter settings and integer seeds, points on an integer grid with "
           "duplicates; TLC validates every call with TR_Constraints: pair soundness / no repeats / counts / same_length "
           "/ warning, chunk validity or ValueError, k-nearest sets with existential ties, every combination exactly "
-          "once, caller-frame indices, seed reproducibility, wrap_pairs."),
+          "once, caller-frame indices, seed reproducibility, wrap_pairs."
+          " Additionally the repository's OWN test suite is run under a pytest tracing plugin (harness/verif_trace_plugin.py, nothing in /repo modified) and every Constraints.positive_negative_pairs / chunks call (made by tests or by *_Supervised fits) recorded from it is validated by TLC against Constraints.tla (TR_Constraints, clauses C07.suite_*)."),
     note=("'No pair is repeated' is read on ordered index pairs (what the statement's mechanism guarantees); cases "
           "outside the stated quantifier are recognised by the spec (InQuantifier*) and only counted."),
     technique="TLA+ set-level specification of constraint soundness, TLC-enumerated label vectors replayed into code, TLC trace validation",
@@ -91,7 +96,8 @@ CHECKS['C17'] = dict(
           "history is validated by TR_Lifecycle, which consumes every event with the same TLA+ action and compares "
           "the logged digests of get_params(), components_, threshold_, n_features_in_ of EVERY live object, of every "
           "caller-owned array (data, labels, init/prior/basis/weights/bounds/preprocessor arrays) and of each output "
-          "with the value of the abstract term, defined by reference executions on fresh objects."),
+          "with the value of the abstract term, defined by reference executions on fresh objects."
+          " Additionally the repository's OWN test suite is run under a pytest tracing plugin (harness/verif_trace_plugin.py, nothing in /repo modified) and the history of every estimator object (each outermost public call with the projected state before / after) recorded from it is validated by TLC against the per-object machine ObjLife.tla (TR_ObjLife: queries change nothing, fit / calibration leave the hyper-parameters untouched; MC_ObjLife model-checks the machine)."),
     note=("Equality is on bytes (same process, single-threaded BLAS). Exhaustive for 2 objects/2 parameter settings/2 "
           "data sets to depth 5 (6); simulation depth 14 (22) beyond. Reference values come from a separately "
           "constructed identical world."),
@@ -104,7 +110,8 @@ CHECKS['C18'] = dict(
           "tokens and validated by TR_Params (stored untouched, identical objects returned); deprecated aliases "
           "(FutureWarning, model equal to the replacement's), every public method on a fresh object (NotFittedError); "
           "TLC-simulated histories with clone / pickle / set_params are validated by TR_Lifecycle (params digest of "
-          "every object after every call; clone-then-fit and pickled outputs bit for bit against fresh references)."),
+          "every object after every call; clone-then-fit and pickled outputs bit for bit against fresh references)."
+          " Additionally the repository's OWN test suite is run under a pytest tracing plugin (harness/verif_trace_plugin.py, nothing in /repo modified) and every use of a not-yet-fitted estimator recorded from it is validated by TLC against ObjLife!UnfittedRaises (TR_ObjLife)."),
     note=("A constructor that rejects a value (LFDA validates embedding_type) stores nothing and is not judged; the "
           "deprecated-alias table is the only hand-written part."),
     technique="TLA+ parameter-store and life-cycle models, TLC trace validation of recorded parameter round-trips and histories",
